@@ -15,6 +15,7 @@ import (
 	"unsafe"
 
 	"github.com/nsqio/nsq/internal/protocol"
+	"github.com/nsqio/nsq/internal/verif"
 	"github.com/nsqio/nsq/internal/version"
 )
 
@@ -84,6 +85,7 @@ func (p *protocolV2) IOLoop(c protocol.Client) error {
 
 		var response []byte
 		response, err = p.Exec(client, params)
+		verif.Ev("KCmd", "k", client.ID, "cmd", string(params[0]), "arg", vparam(params, 1), "arg2", vparam(params, 2), "err", verr(err))
 		if err != nil {
 			ctx := ""
 			if parentErr := err.(protocol.ChildErr).Parent(); parentErr != nil {
@@ -118,6 +120,7 @@ func (p *protocolV2) IOLoop(c protocol.Client) error {
 	if client.Channel != nil {
 		client.Channel.RemoveClient(client.ID)
 	}
+	verif.Ev("KGone", "k", client.ID)
 
 	return err
 }
@@ -354,13 +357,19 @@ func (p *protocolV2) messagePump(client *clientV2, startedChan chan bool) {
 			}
 		}
 		if msg != nil {
+			verif.Ev("KRecv", "k", client.ID, "c", vc(subChannel), "id", vid(msg.ID), "disk", len(b) != 0, "att", msg.Attempts)
 			if sampleRate > 0 && rand.Int31n(100) > sampleRate {
+				verif.Ev("KSample", "k", client.ID, "c", vc(subChannel), "id", vid(msg.ID))
 				continue
 			}
+			verif.Yield("pump.afterRecv", client.ID)
 			msg.Attempts++
 			subChannel.StartInFlightTimeout(msg, client.ID, msgTimeout)
+			verif.Yield("pump.afterStart", client.ID)
 			client.SendingMessage()
+			verif.Ev("Send", "k", client.ID, "c", vc(subChannel), "id", vid(msg.ID), "att", msg.Attempts, "ts", msg.Timestamp, "body", msg.Body)
 			err = p.SendMessage(client, msg)
+			verif.Ev("Sent", "k", client.ID, "id", vid(msg.ID), "ok", err == nil)
 			if err != nil {
 				goto exit
 			}
@@ -419,6 +428,7 @@ func (p *protocolV2) IDENTIFY(client *clientV2, params [][]byte) ([]byte, error)
 	if err != nil {
 		return nil, protocol.NewFatalClientErr(err, "E_BAD_BODY", "IDENTIFY "+err.Error())
 	}
+	verif.Ev("KIdent", "k", client.ID, "cid", identifyData.ClientID, "tmo", int64(client.MsgTimeout), "sample", client.SampleRate)
 
 	// bail out early if we're not negotiating features
 	if !identifyData.FeatureNegotiation {
@@ -670,6 +680,7 @@ func (p *protocolV2) SUB(client *clientV2, params [][]byte) ([]byte, error) {
 	client.Channel = channel
 	// update message pump
 	client.SubEventChan <- channel
+	verif.Ev("KSubDone", "k", client.ID, "c", vc(channel))
 
 	return okBytes, nil
 }
@@ -732,6 +743,7 @@ func (p *protocolV2) FIN(client *clientV2, params [][]byte) ([]byte, error) {
 			fmt.Sprintf("FIN %s failed %s", *id, err.Error()))
 	}
 
+	verif.Yield("fin.beforeClientCount", client.ID)
 	client.FinishedMessage()
 
 	return nil, nil
@@ -773,12 +785,14 @@ func (p *protocolV2) REQ(client *clientV2, params [][]byte) ([]byte, error) {
 		timeoutDuration = clampedTimeout
 	}
 
+	verif.Ev("ReqClamp", "k", client.ID, "id", vid(*id), "reqms", int64(timeoutMs&0x7fffffffffffffff), "delay", int64(timeoutDuration), "max", int64(maxReqTimeout))
 	err = client.Channel.RequeueMessage(client.ID, *id, timeoutDuration)
 	if err != nil {
 		return nil, protocol.NewClientErr(err, "E_REQ_FAILED",
 			fmt.Sprintf("REQ %s failed %s", *id, err.Error()))
 	}
 
+	verif.Yield("req.beforeClientCount", client.ID)
 	client.RequeuedMessage()
 
 	return nil, nil
@@ -790,6 +804,7 @@ func (p *protocolV2) CLS(client *clientV2, params [][]byte) ([]byte, error) {
 	}
 
 	client.StartClose()
+	verif.Ev("KCls", "k", client.ID)
 
 	return []byte("CLOSE_WAIT"), nil
 }
